@@ -210,6 +210,15 @@ func runC16(c *Ctx) {
 	if ic := c.MustFunc(pkgProxy + ":(*connectionRequest).internalConnect"); ic != nil {
 		checkReleaseIdentity(c, ic, isInFlightAddr)
 	}
+	{
+		var own []*ssa.Function
+		for _, f := range scope {
+			if fnPkgPath(f) == Mod+"/"+pkgProxy {
+				own = append(own, f)
+			}
+		}
+		checkServerEquality(c, own)
+	}
 
 	// (c) the previous backend connection is closed on a switch
 	for _, spec := range []struct{ fn, what string }{
